@@ -49,14 +49,22 @@ type shState struct {
 	delta        int                    // net change of storeList.count on this path
 	countUnknown bool                   // count was set to something other than count±1
 	rets         map[*ssa.Call][]string // results of calls executed inline
+	unlinked     map[string]bool        // nodes some link of which was redirected away by this function
+	countTested  bool                   // this path has branched on the element count
 }
 
 func (s *shState) clone() *shState {
 	c := &shState{field: map[shKey]string{}, stored: map[shKey]bool{}, cells: map[ssa.Value]string{}, isNil: map[string]bool{},
 		nonNil: map[string]bool{}, fresh: map[string]bool{}, phi: map[*ssa.Phi]string{}, vals: map[ssa.Value]string{}, n: s.n,
-		delta: s.delta, countUnknown: s.countUnknown, rets: map[*ssa.Call][]string{}}
+		delta: s.delta, countUnknown: s.countUnknown, rets: map[*ssa.Call][]string{}, countTested: s.countTested}
 	for k, v := range s.rets {
 		c.rets[k] = v
+	}
+	if s.unlinked != nil {
+		c.unlinked = map[string]bool{}
+		for k, v := range s.unlinked {
+			c.unlinked[k] = v
+		}
 	}
 	for k, v := range s.field {
 		c.field[k] = v
@@ -98,6 +106,7 @@ type shapeChecker struct {
 	isNode   map[string]bool
 	paths    int
 	cut      bool
+	usesCount bool                  // some branch tests storeList.count (a relation the shape domain does not have)
 	unroll   int                    // how often a block may be entered on one path
 	inline   map[*ssa.Function]bool // helpers executed inside their callers (they rely on what the call site passes)
 	budget   int
@@ -294,6 +303,15 @@ func (sc *shapeChecker) step(s *shState, in ssa.Instruction) {
 					// re-linking: the old neighbour (if any) still points here and must be dealt with
 					sc.load(s, k.base, f)
 				}
+				if s.countTested {
+					sc.usesCount = true // a link is written on a path that was chosen by a test of the element count
+				}
+				if old, had := s.field[k]; had && old != nv && old != "nil" {
+					if s.unlinked == nil {
+						s.unlinked = map[string]bool{}
+					}
+					s.unlinked[old] = true // this link pointed to `old` and no longer does
+				}
 				s.field[k] = nv
 				s.stored[k] = true
 			}
@@ -485,7 +503,10 @@ func (sc *shapeChecker) checkCount(s *shState, where string) {
 		}
 		if s.stored[shKey{id, "next"}] && s.stored[shKey{id, "prev"}] && s.field[shKey{id, "next"}] == "nil" && s.field[shKey{id, "prev"}] == "nil" {
 			rem++
-		} else if len(s.stored) > 0 && !sc.pointedTo(s, id) && !sc.isPivot(s, id) {
+		} else if len(s.stored) > 0 && !sc.pointedTo(s, id) && !sc.isPivot(s, id) &&
+			(s.stored[shKey{id, "next"}] || s.stored[shKey{id, "prev"}] || s.unlinked[id]) {
+			// taken out: this function wrote the node's own links or redirected a link that pointed to it (a node that
+			// is only read — the element visited while another list is built — stays where it is)
 			rem++
 		}
 	}
@@ -633,6 +654,13 @@ func (sc *shapeChecker) execFrom(fr *shFrame, b *ssa.BasicBlock, idx int, s *shS
 		sc.checkEnds(s, "a return", false)
 		sc.checkCount(s, "a return")
 	case *ssa.If:
+		if bo, ok := t.Cond.(*ssa.BinOp); ok {
+			for _, o := range []ssa.Value{bo.X, bo.Y} {
+				if _, f := loadedField(o); f != nil && f == sc.fCount && sc.bothSidesWriteLinks(b) {
+					s.countTested = true // the count selects which links are written (not merely whether anything is done)
+				}
+			}
+		}
 		var id string
 		eq := false
 		isNilTest := false
@@ -664,6 +692,50 @@ func (sc *shapeChecker) execFrom(fr *shFrame, b *ssa.BasicBlock, idx int, s *shS
 			sc.enter(fr, succ, b, s.clone())
 		}
 	}
+}
+
+// bothSidesWriteLinks: from both successors of the branch at the end of b a link store (or a call of a link-writing
+// function) is reachable without coming back to b.
+func (sc *shapeChecker) bothSidesWriteLinks(b *ssa.BasicBlock) bool {
+	if len(b.Succs) != 2 {
+		return false
+	}
+	writes := func(x *ssa.BasicBlock) bool {
+		for _, in := range x.Instrs {
+			switch v := in.(type) {
+			case *ssa.Store:
+				if fa, ok := v.Addr.(*ssa.FieldAddr); ok && sc.linkField(fieldOf(fa)) != "" {
+					return true
+				}
+			case *ssa.Call:
+				if g := v.Call.StaticCallee(); g != nil && sc.c.InPkg(g) && sc.writesLinks(g) {
+					return true
+				}
+			}
+		}
+		return false
+	}
+	for _, s0 := range b.Succs {
+		found := false
+		seen := map[*ssa.BasicBlock]bool{b: true}
+		work := []*ssa.BasicBlock{s0}
+		for len(work) > 0 && !found {
+			x := work[len(work)-1]
+			work = work[:len(work)-1]
+			if seen[x] {
+				continue
+			}
+			seen[x] = true
+			if writes(x) {
+				found = true
+			}
+			work = append(work, x.Succs...)
+		}
+		if !found {
+			return false
+		}
+	}
+	return true
 }
 
 // headTail: in a well-formed list head is nil exactly when tail is nil; applies to initial (unwritten) values only.
@@ -791,6 +863,13 @@ func ruleListShape(c *Ctx) {
 		}
 		if len(sc.problems) == 0 {
 			c.S.OK("R-list-shape", fnName(fn)+":well-formed-at-exit", c.Pos(fn.Pos()), fmt.Sprintf("%d path(s) executed symbolically; every written link has its counterpart", sc.paths))
+			continue
+		}
+		if sc.usesCount {
+			// the function (or a helper executed inside it) decides by the element count which links to write
+			// (`if list.count == 1 { head, tail = nil, nil }`): that the count equals the number of linked nodes is an
+			// invariant the shape domain does not carry, so nothing is concluded here — neither way
+			c.S.Trivial("R-list-shape", fnName(fn)+":branches-on-count", c.Pos(fn.Pos()), "the link updates depend on a test of the element count; not decided by the shape interpretation")
 			continue
 		}
 		var ks []string
